@@ -380,6 +380,10 @@ func (s *Shard) SearchPoints(searchRequest models.SearchRequest) ([]models.Searc
 				return fmt.Errorf("could not get point by node id %d: %w", r.NodeId, err)
 			}
 			r.Point = sp.Point
+			// The stored bytes belong to the storage transaction, they must be
+			// copied to outlive it, otherwise a later write can overwrite them
+			// while the caller is still decoding the result.
+			r.Point.Data = bytes.Clone(sp.Point.Data)
 			rSet.Remove(r.NodeId)
 			finalResults = append(finalResults, r)
 		}
@@ -394,6 +398,7 @@ func (s *Shard) SearchPoints(searchRequest models.SearchRequest) ([]models.Searc
 			if err != nil {
 				return fmt.Errorf("could not get point by node id %d: %w", nodeId, err)
 			}
+			sp.Point.Data = bytes.Clone(sp.Point.Data)
 			finalResults = append(finalResults, models.SearchResult{NodeId: nodeId, Point: sp.Point})
 		}
 		// ---------------------------
